@@ -158,7 +158,9 @@ theorem resolveWith_ok (inlineG : GEnv → Expr → ElabSt → Option (RExpr × 
     · simp at h
     · simp only [Option.bind_eq_bind, Option.bind_eq_some_iff] at h
       obtain ⟨⟨pre, st1⟩, h1, h⟩ := h
-      have a := copiesOf_ok ih mn st pre st1 h1
+      have ih' : ResolverOK (fun s => resolveWith inlineG G body (forgetVars st.vars s)) :=
+        fun s r s' hr => ih (forgetVars st.vars s) r s' hr
+      have a := copiesOf_ok ih' mn st pre st1 h1
       simp only at h
       split at h
       · simp only [Option.pure_def, Option.some.injEq, Prod.mk.injEq] at h
@@ -168,7 +170,9 @@ theorem resolveWith_ok (inlineG : GEnv → Expr → ElabSt → Option (RExpr × 
         obtain ⟨⟨rb, st2⟩, h2, h⟩ := h
         simp only [Option.pure_def, Option.some.injEq, Prod.mk.injEq] at h
         obtain ⟨rfl, rfl⟩ := h
-        have b := ih st1 rb st2 h2
+        have b := ih (forgetVars st.vars st1) rb st2 h2
+        have hn : (forgetVars st.vars st1).nextSub = st1.nextSub := rfl
+        rw [hn] at b
         exact ⟨by omega, by simp only [subIds]; exact a.2.append b.2 a.1 b.1⟩
   | branch l r' ihl ihr =>
     intro st r st' h
@@ -342,7 +346,9 @@ theorem resolveWith_wf (inlineG : GEnv → Expr → ElabSt → Option (RExpr × 
     · simp at h
     · simp only [Option.bind_eq_bind, Option.bind_eq_some_iff] at h
       obtain ⟨⟨pre, st1⟩, h1, h⟩ := h
-      have a := wfR_seqOf pre (copiesOf_wf (ih hw) mn st pre st1 h1)
+      have ih' : ResolverWf (fun s => resolveWith inlineG G body (forgetVars st.vars s)) :=
+        fun s r s' hr => ih hw (forgetVars st.vars s) r s' hr
+      have a := wfR_seqOf pre (copiesOf_wf ih' mn st pre st1 h1)
       simp only at h
       split at h
       · simp only [Option.pure_def, Option.some.injEq, Prod.mk.injEq] at h
@@ -352,7 +358,7 @@ theorem resolveWith_wf (inlineG : GEnv → Expr → ElabSt → Option (RExpr × 
         obtain ⟨⟨rb, st2⟩, h2, h⟩ := h
         simp only [Option.pure_def, Option.some.injEq, Prod.mk.injEq] at h
         obtain ⟨rfl, rfl⟩ := h
-        exact ⟨a, ih hw st1 rb st2 h2⟩
+        exact ⟨a, ih hw _ rb st2 h2⟩
   | branch l r' ihl ihr =>
     intro hw st r st' h
     simp only [resolveWith, Option.bind_eq_bind, Option.bind_eq_some_iff] at h
